@@ -54,6 +54,10 @@ enum Stream {
     Pattern(u64),
     /// Every item is `u64::MAX` (bits above the width are set).
     Ones,
+    /// Every item is 0 (a flush must not depend on the VALUE of the bits that spill over the buffer limit).
+    Zeros,
+    /// Items alternate between 0 and 1 (high bits of every item are zero).
+    Small,
 }
 
 impl Stream {
@@ -61,6 +65,8 @@ impl Stream {
         match self {
             Stream::Pattern(p) => (i as u64).wrapping_mul(0x9E37_79B9_7F4A_7C15) ^ p,
             Stream::Ones => u64::MAX,
+            Stream::Zeros => 0,
+            Stream::Small => (i % 2) as u64,
         }
     }
 }
@@ -536,7 +542,7 @@ fn explore_int(ctx: &mut Ctx, job: &mut u64) {
     let thorough = ctx.tier.is_thorough();
     let widths: Vec<usize> = if thorough { (1..=64).collect() } else { vec![1, 2, 7, 8, 13, 31, 32, 33, 63, 64] };
     let cap = ctx.tier.pick(200usize, 400usize);
-    let streams = [Stream::Ones, Stream::Pattern(ctx.seed_pattern())];
+    let streams: Vec<Stream> = if thorough { vec![Stream::Ones, Stream::Pattern(ctx.seed_pattern()), Stream::Zeros, Stream::Small] } else { vec![Stream::Ones, Stream::Pattern(ctx.seed_pattern()), Stream::Small] };
     let bufs = [0usize, 1, 2, 3, 5, 8, 64, 65];
 
     for &width in &widths {
@@ -733,6 +739,20 @@ fn explore_raw(ctx: &mut Ctx, job: &mut u64) {
                     Breadth::Representatives { parent_header: thorough }
                 };
                 raw_configs(ctx, word(&alphabet, len, code), breadth);
+            }
+        }
+    }
+
+    // a second alphabet of small values (zero bits where an item straddles the buffer limit), same depth
+    let small: Vec<RPush> = vec![RPush::Bit(false), RPush::Bit(true), RPush::Int(0, 63), RPush::Int(1, 33), RPush::Int(0, 64), RPush::Int(2, 7), RPush::Int(!0, 31)];
+    let ks = small.len() as u64;
+    for len in 1..=depth.min(if thorough { 5 } else { 3 }) {
+        for code in 0..ks.pow(len as u32) {
+            let mine = ctx.mine_index(*job);
+            *job += 1;
+            if mine {
+                ctx.count("raw_histories_small_values", 1);
+                raw_configs(ctx, word(&small, len, code), Breadth::All { default_buffer: false });
             }
         }
     }
